@@ -7,8 +7,8 @@ from checkdefs import CHECKS, MANIFEST_TEXT, NOT_APPLICABLE, NOT_CLAIMED_YET
 
 checks = []
 for pid in sorted(CHECKS):
-    if not pid.startswith("C"):
-        continue
+    if not pid.startswith("C") or pid not in MANIFEST_TEXT:
+        continue      # (companion checks such as C19H run as part of their property's check)
     spec = CHECKS[pid]
     t = MANIFEST_TEXT[pid]
     checks.append({
@@ -33,9 +33,11 @@ m = {
         "add_only": True,
     },
     "engines": [
-        {"name": "simbus", "path": "build/simbus", "serves_properties": sorted(p for p in CHECKS if p.startswith("C") and CHECKS[p]["binary"] == "simbus"),
+        {"name": "simbus", "path": "build/simbus", "serves_properties": sorted(p for p in CHECKS if p in MANIFEST_TEXT and CHECKS[p]["binary"] == "simbus"),
          "kind_free_text": "whole dbus-daemon (real bus/*.c + dbus/*.c) in-process under a simulated kernel (link-time --wrap of libc), scripted raw clients on an independent wire codec, executable bus model as oracle, seeded plan generator, ddmin minimiser, fresh-process replay gate"},
-        {"name": "simlib", "path": "build/simlib", "serves_properties": sorted(p for p in CHECKS if p.startswith("C") and CHECKS[p]["binary"] == "simlib"),
+        {"name": "simhelper", "path": "build/simhelper", "serves_properties": ["C19"],
+         "kind_free_text": "the activation helper (bus/activation-helper.c built as the test launcher) with execv() as a link-time seam; companion of the C19 check"},
+        {"name": "simlib", "path": "build/simlib", "serves_properties": sorted(p for p in CHECKS if p in MANIFEST_TEXT and CHECKS[p]["binary"] == "simlib"),
          "kind_free_text": "real libdbus endpoint (DBusServer/DBusConnection, transport, auth, loader, pending calls, object tree) against a scripted wire peer under the same simulated kernel"},
     ],
     "checks": checks,
